@@ -11,6 +11,7 @@ CONSTANTS
   FixInvalidCorrected = TRUE
   FixValidToInvalid = TRUE
   AvoidWindows = FALSE
+  ProcRewritesName = FALSE
 INVARIANTS TypeOK NoDupStore ViewsReadable Converged
 PROPERTIES UnknownIgnored
 CHECK_DEADLOCK FALSE
